@@ -45,6 +45,10 @@ def classify(rc, out, err):
         return "directive-conflict"
     if "unexpected active transaction" in t:
         return "active-tx"
+    if "history changed" in t:
+        return "history-changed"
+    if "panic:" in t or "goroutine " in t:
+        return "panic"
     if rc < 0:
         return "signal%d" % -rc
     return "other"
